@@ -580,3 +580,77 @@ def rule_U_CHARS(ctx, modules=("impl_lexical::parser", "impl_enum::parser")):
                "%s:%s" % (b["span"]["file"], t["line"]))
     if not bad:
         ctx.ob("U-CHARS", "no byte length taken in %s" % "/".join(m.split("::")[0] for m in modules), True)
+
+
+# ----------------------------------------------------------------------------
+# O-ORDER: components travel through formatter, parser, fold and accessors in their stored order
+ORDER_MODULES = ("conversion::", "enum_narsese::term", "lexical::term", "api::data_structure::term")
+ORDER_HARD = {"rev", "sort", "sort_by", "sort_by_key", "sort_by_cached_key", "sort_unstable", "sort_unstable_by", "sort_unstable_by_key", "reverse", "swap",
+              "swap_remove", "rotate_left", "rotate_right", "next_back", "rfold", "rposition", "rfind", "last", "sorted", "rsplit", "rsplitn"}
+ORDER_SOFT = {"dedup", "dedup_by", "dedup_by_key", "retain", "retain_mut", "skip", "step_by", "take", "take_while", "skip_while", "filter", "filter_map",
+              "drain", "split_off", "truncate", "pop", "remove", "insert", "nth", "chain", "zip", "flat_map", "flatten", "cycle", "extend_from_within"}
+# reviewed sites where an element is taken out / put in on purpose: (function, method) -> (count, reason)
+ORDER_EXCEPTIONS = {
+    ("extract_terms", "insert"): (1, "puts the image placeholder back at its recorded index (K-COMPONENTS / K-IMAGEITER check the index)"),
+    ("parse_compound", "pop"): (3, "takes the one / two operands of negation and the differences out of the parsed list (A-ARITY checks the count, M-CTOR the operand order)"),
+    ("parse_terms_with_image", "remove"): (1, "removes the first placeholder, the rest keeps its order (I-INDEX)"),
+}
+
+
+def _seq_of_terms(ty):
+    seq = any(m in ty for m in ("std::vec::Vec<", "[", "std::slice::Iter", "std::vec::IntoIter", "std::iter::", "std::collections::VecDeque"))
+    if not seq or "HashSet" in ty or "HashMap" in ty or ty.lstrip("&mut ").startswith("std::option::Option"):
+        return False
+    return "Term" in ty or "Vec<std::string::String>" in ty or "IntoIter<std::string::String>" in ty or "Iter<'_, std::string::String>" in ty \
+        or "Item = std::string::String" in ty
+
+
+def order_sites(facts, modules=ORDER_MODULES):
+    """[(function name, path, method, line, receiver type, hard?)] of order-changing calls in the component pipeline"""
+    import mir as M
+    out = []
+    for p, b in sorted(facts.mir.items()):
+        if not any(m in p for m in modules) or "::tests" in p or "::test" in p:
+            continue
+        g = M.cfg(b)
+        for bi, t in g.calls():
+            if b["blocks"][bi]["cleanup"] or not t["args"]:
+                continue
+            nm = M.callee_name(t)
+            if nm not in ORDER_HARD and nm not in ORDER_SOFT:
+                continue
+            a0 = t["args"][0]
+            ty = b["locals"][a0["place"]["local"]]["ty"] if a0["k"] in ("Copy", "Move") else ""
+            cp = M.callee_path(t) or ""
+            if nm in ORDER_HARD:
+                # any sequence / iterator / string: reversing or sorting characters of a name is as wrong as reordering components
+                if any(m in (ty + cp) for m in ("Vec", "[", "Iter", "iter::", "Chars", "str", "String", "slice")) and "Option" not in ty.split("<")[0]:
+                    out.append((b["name"], p, nm, t["line"], ty, True))
+            elif _seq_of_terms(ty):
+                out.append((b["name"], p, nm, t["line"], ty, False))
+    return out
+
+
+def rule_O_ORDER(ctx):
+    ctx.rule("O-ORDER", "components (and the strings rendered from them) travel through formatters, templates, both parsers, the fold and the "
+             "accessors in their stored order: inside the component pipeline modules no sequence is reversed / sorted / rotated (any "
+             "sequence, any element type), and no sequence of terms or rendered strings has elements dropped, inserted or skipped, except "
+             "the reviewed sites (image placeholder insert / remove, operand pops of the fixed-arity compounds)")
+    sites = order_sites(ctx.facts)
+    used = {}
+    n_fn = sum(1 for p in ctx.facts.mir if any(m in p for m in ORDER_MODULES))
+    ctx.floor("functions scanned by O-ORDER", n_fn, 200)
+    for fn, p, nm, line, ty, hard in sites:
+        exc = ORDER_EXCEPTIONS.get((fn, nm))
+        if exc is not None and not hard:
+            used[(fn, nm)] = used.get((fn, nm), 0) + 1
+            continue
+        ctx.ob("O-ORDER", "%s: %s on %s" % (fn, nm, ty[:60]), False,
+               "%s a sequence in the component pipeline: ordered compounds, images and statements lose their component order or a component"
+               % ("reorders" if hard else "drops / inserts / skips elements of"), "%s:%s" % (ctx.facts.mir[p]["span"]["file"], line))
+    for key, (cnt, why) in sorted(ORDER_EXCEPTIONS.items()):
+        ctx.ob("O-ORDER", "reviewed site %s.%s x%d" % (key[0], key[1], cnt), used.get(key, 0) == cnt,
+               "expected %d such call(s), found %d (%s)" % (cnt, used.get(key, 0), why))
+    if not [s for s in sites if ORDER_EXCEPTIONS.get((s[0], s[2])) is None or s[5]]:
+        ctx.ob("O-ORDER", "no other order-changing call on a component sequence", True)
+    ctx.sample({"rule": "O-ORDER", "functions_scanned": n_fn, "reviewed_sites": {"%s.%s" % k: v[1] for k, v in ORDER_EXCEPTIONS.items()}})
